@@ -117,8 +117,10 @@ Inductive oev :=
 | OUnstake (origin a : addr) (amount stake : Z) (has_miner : bool) (now : N)
     (* opUnStake; stake = that miner's stake in whole tokens before the opcode; now = block height *)
 | OUnstakeAll (origin a : addr) (stake : Z) (has_miner : bool) (now : N)
-| OAuthCall (sponsor to : addr) (v : Z).
-    (* opAuthCall -> evm.AuthCall: CanTransfer(sponsor = tx origin, v), Transfer(sponsor, to, v) *)
+| OAuthCall (sponsor authority to : addr) (v : Z).
+    (* an opAuthCall that reached evm.AuthCall (authorized account set, nonce right): the call is made in the name of
+       [authority], but the value is the SPONSOR's (the tx origin): the guard consults the sponsor's balance -
+       CanTransfer(sponsor, v) - and Transfer(sponsor, to, v) debits the sponsor. The authority's balance plays no role. *)
 
 (* whole tokens of a wei amount, as ParseUint(BigIntToStrWithoutDot(amount), 10, 0) sees them *)
 Definition whole_of (amount : Z) : Z := amount / e18.
@@ -140,7 +142,7 @@ Definition lower (e : oev) : list ev :=
     then [EUnstake o a amount (unstake_whole amount stake * e18) (now + refund_after)] else []
   | OUnstakeAll o a stake hm now =>
     if hm then [EUnstake o a 0 (stake * e18) (now + refund_after)] else []
-  | OAuthCall s t v => [EValue s t v]
+  | OAuthCall s _ t v => [EValue s t v]
   end.
 
 Definition lower_trace (tr : list oev) : list ev := flat_map lower tr.
@@ -155,6 +157,9 @@ Definition op_result (e : oev) (l : led) : option Z :=
           else if bal l a <? whole_of amount * e18 then 0 else 1)
   | OUnstake _ _ amount stake hm _ => Some (if hm && (unstake_whole amount stake <=? stake) then 1 else 0)
   | OUnstakeAll _ _ stake hm _ => Some (if hm then stake * e18 else -1)
+  | OAuthCall s _ _ v =>
+    (* did the value move? (for v = 0 the code may return before the transfer: nothing to compare) *)
+    if v =? 0 then None else Some (if (0 <=? v) && (v <=? bal l s) then 1 else 0)
   | _ => None
   end.
 
@@ -409,7 +414,7 @@ Definition oev_closed (U : list addr) (e : oev) : Prop :=
   | OStake a _ _ => In a U
   | OUnstake o a _ _ _ _ => In o U /\ In a U
   | OUnstakeAll o a _ _ _ => In o U /\ In a U
-  | OAuthCall s t _ => In s U /\ In t U
+  | OAuthCall s _ t _ => In s U /\ In t U
   end.
 
 (* operands are uint256 stack words, stakes uint64 *)
@@ -419,7 +424,7 @@ Definition oev_wf (e : oev) : Prop :=
   | OStake _ amount _ => 0 <= amount
   | OUnstake _ _ amount stake _ _ => 0 <= amount /\ 0 <= stake
   | OUnstakeAll _ _ stake _ _ => 0 <= stake
-  | OAuthCall _ _ _ => True
+  | OAuthCall _ _ _ _ => True
   end.
 
 
